@@ -11,10 +11,11 @@ with C01 `validate_complete`, C02 and C28).
 -/
 import BytomModel.Model.Builder
 import BytomModel.Lemmas.Builder
+import BytomModel.Lemmas.Mux
 import BytomModel.Props.C26
 
 namespace BytomModel.Props.C27
-open BytomModel.Model.Keeper BytomModel.Model.Builder BytomModel.Lemmas.Keeper BytomModel.Lemmas.Builder
+open BytomModel.Model.Keeper BytomModel.Model.Builder BytomModel.Lemmas.Keeper BytomModel.Lemmas.Builder BytomModel.Lemmas.Mux
 
 theorem build_ok_inv (sortFn : List Utxo → List Utxo) (hperm : ∀ l, (sortFn l).Perm l) (k k' : Keeper) (exp : Nat)
     (actions : List Action) (t : Tpl) (h : buildWith sortFn k exp actions = (.ok t, k')) :
@@ -32,7 +33,7 @@ theorem build_ok_inv (sortFn : List Utxo → List Utxo) (hperm : ∀ l, (sortFn 
       obtain ⟨rfl, rfl⟩ := h
       have := runActions_inv sortFn hperm exp actions 0 (k, ⟨[], [], []⟩) (k1, b) [] hr binv_empty
       simp only [List.nil_append] at this
-      exact ⟨⟨this.bal, this.recips, this.change, this.insrc⟩, rfl⟩
+      exact ⟨⟨this.bal, this.recips, this.change, this.insrc, this.pos⟩, rfl⟩
 
 /-- `built_tx_balances`: for every asset, what the template's inputs carry beyond its outputs
     is exactly what the request spends beyond what it pays out (change outputs cancel). -/
@@ -209,6 +210,45 @@ theorem failed_build_rolls_back (sortFn : List Utxo → List Utxo) (k k' : Keepe
       · rw [hc]; exact hr.same.1
       · rw [hu]; exact hr.same.2.1
       · rw [hh]; exact hr.same.2.2
+
+theorem S_ins (a : Nat) (l : List Utxo) : S a (l.map fun u => (u.asset, u.amount)) = ofAssetIn a l := by
+  induction l with
+  | nil => simp [S, ofAssetIn, amounts]
+  | cons u r ih =>
+    simp only [List.map_cons, S, ih, ofAssetIn, List.filter_cons]
+    by_cases h : u.asset = a <;> simp [h, amounts_cons]
+
+theorem S_outs (a : Nat) (l : List TOut) : S a (l.map fun o => (o.asset, o.amount)) = ofAssetOut a l := by
+  induction l with
+  | nil => simp [S, ofAssetOut]
+  | cons o r ih =>
+    simp only [List.map_cons, S, ih, ofAssetOut, List.filter_cons]
+    by_cases h : o.asset = a <;> simp [h]
+
+/-- `built_tx_passes_balance_checks`: for a balanced request over a wallet without doubly listed
+    outputs (and per-asset input totals within int64) the built template passes the model of
+    validation's double-spend check and mux balance check (protocol/validation/tx.go), and the
+    BTM value handed to `setGas` is exactly `tpl.Fee`. What remains for `ValidateTx` to accept
+    is gas sufficiency (explicit side condition) and the programs/signatures (C02/C28). -/
+theorem built_tx_passes_balance_checks (sortFn : List Utxo → List Utxo) (hperm : ∀ l, (sortFn l).Perm l)
+    (k k' : Keeper) (exp : Nat) (actions : List Action) (t : Tpl) (hl : ListedNodup k)
+    (h : buildWith sortFn k exp actions = (.ok t, k')) (hb : Balanced actions)
+    (hfit : ∀ asset, ofAssetIn asset t.ins ≤ maxInt64) :
+    tplCheck t = .ok (t.fee : Int) := by
+  obtain ⟨h1, h2, h3, _⟩ := built_tx_valid_balance sortFn hperm k k' exp actions t h hb
+  have hnd := build_inputs_distinct_partial sortFn hperm k k' exp actions t hl h
+  have hpos := (build_ok_inv sortFn hperm k k' exp actions t h).1.pos
+  unfold tplCheck
+  rw [mux_accepts_balanced (t.ins.map (·.id)) _ _ hnd
+    (fun a => by rw [S_ins]; exact hfit a)
+    (fun a ha => by rw [S_ins, S_outs]; exact h1 a ha)
+    (by rw [S_ins, S_outs]; exact h2)
+    (fun d hd => by
+      obtain ⟨o, ho, rfl⟩ := List.mem_map.mp hd
+      exact hpos o ho)]
+  rw [S_ins, S_outs, h3]
+  congr 1
+  omega
 
 /-- merging spend actions does not change what the request asks for -/
 theorem mergeSpends_preserves_recipients (actions : List Action) : reqOuts (mergeSpends actions) = reqOuts actions := by
